@@ -565,6 +565,113 @@ def _mutable_global(project: Project, dotted: str) -> bool:
     return False
 
 
+def _flag_call_info(project, ev):
+    """(owner FunctionInfo, function node, the .setflags call, its `write` value node or None)"""
+    owner = project.functions.get(ev.func)
+    call = ev.node if isinstance(ev.node, ast.Call) else None
+    if owner is None or call is None:
+        return owner, None, call, None
+    w = None
+    for kw in call.keywords:
+        if kw.arg == "write":
+            w = kw.value
+    if w is None and call.args:
+        w = call.args[0]
+    return owner, owner.node, call, w
+
+
+def _mentions_flags(project, mod, e, depth=0) -> bool:
+    """the expression reads array flags — `.flags`, `.writeable`, or through a helper of the package that does"""
+    for x in ast.walk(e):
+        if isinstance(x, ast.Attribute) and x.attr in ("flags", "writeable"):
+            return True
+        if isinstance(x, ast.Constant) and x.value in ("WRITEABLE", "W"):
+            return True
+        if isinstance(x, ast.Call) and isinstance(x.func, (ast.Name, ast.Attribute)) and depth < 2:
+            tgt = project.resolve(mod, x.func, ())
+            h = project.functions.get(project.canonical(tgt)) if tgt else None
+            if h is not None and _mentions_flags(project, h.module, h.node, depth + 1):
+                return True
+    return False
+
+
+def _faithful_restore(project, owner, fnode, call, w) -> bool:
+    """a `setflags(write=...)` that puts back what was there: the value is not a constant, or the arrays it runs over were
+    selected by a test on their flags, or it sits under such a test"""
+    if w is not None and not isinstance(w, ast.Constant):
+        return True
+    recv = call.func.value if isinstance(call.func, ast.Attribute) else None
+    parents = {id(c): p_ for p_ in ast.walk(fnode) for c in ast.iter_child_nodes(p_)}
+    # under an `if` that looks at flags / a saved flag
+    x = call
+    while id(x) in parents:
+        x = parents[id(x)]
+        if isinstance(x, ast.If) and _mentions_flags(project, owner.module, x.test):
+            return True
+        if isinstance(x, (ast.For, ast.comprehension)) and isinstance(recv, ast.Name):
+            tgt_names = {t.id for t in ast.walk(x.target) if isinstance(t, ast.Name)}
+            if recv.id in tgt_names:
+                it = x.iter
+                srcs = [it]
+                if isinstance(it, ast.Name):
+                    srcs = [a_.value for a_ in ast.walk(fnode) if isinstance(a_, ast.Assign)
+                            and any(isinstance(t, ast.Name) and t.id == it.id for t in a_.targets)]
+                for src in srcs:
+                    for c in ast.walk(src):
+                        if isinstance(c, ast.comprehension) and any(_mentions_flags(project, owner.module, f_) for f_ in c.ifs):
+                            return True
+    return False
+
+
+def check_pu_flags(project: Project, oa, rep, entry_points, rule="PU-FLAGS", include_self=False):
+    """PU-FLAGS: the writeable flag of an array the caller handed in (or of an operand's data) may be cleared while the
+    function works, but must come back as it was on every exit: a `finally` holds the restoring `setflags`, and that restore is
+    faithful (the saved value, or only the arrays that were writeable) — an unconditional `write=True` un-protects an array the
+    caller had made read-only.  Marking the object's OWN arrays read-only for good is not covered here (no caller data)."""
+    n = 0
+    seen = set()
+    for fi in entry_points:
+        s = oa.summary(fi.qualname)
+        params = fi.params
+        self_name = params[0] if (fi.cls is not None and fi.kind in ("method", "property", "setter") and params) else None
+        for ev in s.events:
+            if ev.kind != "flagset" or not ev.origin.is_arg:
+                continue
+            owner, fnode, call, w = _flag_call_info(project, ev)
+            if owner is None or call is None or (owner.qualname, id(call)) in seen:
+                continue
+            seen.add((owner.qualname, id(call)))
+            n += 1
+            own_data = ev.origin.param == self_name and not include_self
+            const = w.value if isinstance(w, ast.Constant) else None
+            in_finally = any(isinstance(t, ast.Try) and any(call in ast.walk(f_) for f_ in t.finalbody) for t in ast.walk(fnode))
+            if const is False or (w is None):
+                # cleared: for caller data a restoring call must sit in a finally of the same function
+                if own_data:
+                    rep.discharged(rule, owner, call, f"`{ast.unparse(call)[:50]}` protects the object's own array", nontrivial=False)
+                    continue
+                restores = [c for t in ast.walk(fnode) if isinstance(t, ast.Try) for f_ in t.finalbody for c in ast.walk(f_)
+                            if isinstance(c, ast.Call) and isinstance(c.func, ast.Attribute) and c.func.attr == "setflags"]
+                if restores:
+                    rep.discharged(rule, owner, call, f"`{ast.unparse(call)[:50]}` on the caller's array is undone in a finally")
+                else:
+                    rep.refuted(rule, owner, call,
+                                f"{fi.qualname}: `{ast.unparse(call)[:60]}` clears the writeable flag of an array the caller handed in "
+                                f"(`{ev.origin}`) and no `finally` puts it back: the caller's array stays read-only",
+                                construct=f"{owner.qualname}: {ast.unparse(call)[:60]} without restore")
+            else:
+                if _faithful_restore(project, owner, fnode, call, w):
+                    rep.discharged(rule, owner, call, f"`{ast.unparse(call)[:50]}` puts back the flag that was there"
+                                                      f"{' (in a finally)' if in_finally else ''}")
+                else:
+                    rep.refuted(rule, owner, call,
+                                f"{fi.qualname}: `{ast.unparse(call)[:60]}` makes `{ev.origin}` writeable whatever it was before: an "
+                                f"array the caller had protected (read-only) comes back writeable — or, if it is a view of a "
+                                f"read-only array, the call raises — although the operation only reads it",
+                                construct=f"{owner.qualname}: unconditional {ast.unparse(call)[:60]}")
+    return n
+
+
 def check_pu_lazy(project: Project, rep):
     """PU-LAZY: a public method of a landscape class reads what compute_landscape stores lazily only behind the computation —
     otherwise the first call answers from the place-holder and the same call after any other computing call answers from the
@@ -711,6 +818,7 @@ def run(project: Project, rep, tier: str):
     check_pu_share(project, oa, rep, eps)
     check_pu_lazy(project, rep)
     rep.floor("PU-LAZY", 20)
+    check_pu_flags(project, oa, rep, eps)
     check_pu_plt(project, oa, rep)
     _, dsites = check_pu_dtype(project, rep)
     rep.floor("PU-DTYPE", 3)
